@@ -112,6 +112,8 @@ inductive Reach : Plane.Plane → List PObj → Prop
   | add {p L} (o : PObj) : Reach p L → (∀ o' ∈ p.seq, o'.id ≠ o.id) → WfRect (bboxOf o) →
       Reach (Plane.add p o) (L ++ [o])
   | remove {p L} (o : PObj) : Reach p L → o ∈ L → Reach (Plane.remove p o).1 (L.erase o)
+  /-- an object that was added before and removed since is added again: it becomes the LAST live object -/
+  | readd {p L} (o : PObj) : Reach p L → o ∈ p.seq → o.id ∉ p.objs → Reach (Plane.addPy p o) (L ++ [o])
 
 /-- The representation invariant tying the fields of `Plane` to the live list: a live object is filed
 either under every cell of its box (when those are at most `MAXCELLS`) or, once, in the overflow list. -/
@@ -140,6 +142,110 @@ theorem cells_add (p : Plane.Plane) (o : PObj) (b : Rect) :
 theorem cells_remove (p : Plane.Plane) (o : PObj) (b : Rect) :
     cells? (Plane.remove p o).1 b = cells? p b := cells?_congr (remove_bounds p o) b
 
+/-- The insertion proper keeps the invariant (the list grows at its end). -/
+theorem inv_add {p L} (ih : Inv p L) (o : PObj) (hfresh : ∀ o' ∈ p.seq, o'.id ≠ o.id) (hwf : WfRect (bboxOf o)) :
+    Inv (Plane.add p o) (L ++ [o]) := by
+  have hnot : o.id ∉ p.objs := fun hmem => by
+    obtain ⟨o', ho', hid⟩ := ih.objs_sub _ hmem
+    exact hfresh o' ho' hid
+  have hoL : o ∉ L := fun hmem => by
+    rw [← ih.live] at hmem
+    simp only [Plane.iter, List.mem_filter] at hmem
+    exact hfresh o hmem.1 rfl
+  have hb := add_bounds p o
+  refine { gs := by rw [hb.1]; exact ih.gs, bx := by rw [hb.2.1, hb.2.2.2.1]; exact ih.bx,
+           by' := by rw [hb.2.2.1, hb.2.2.2.2]; exact ih.by', ids := ?_, objs_nodup := ?_, objs_sub := ?_,
+           live := ?_, wf := ?_, grid := ?_, big := ?_ }
+  · rw [add_seq]
+    simp only [List.pairwise_append, List.pairwise_cons, List.not_mem_nil,
+      List.Pairwise.nil, List.mem_cons, or_false]
+    exact ⟨ih.ids, ⟨fun _ h => h.elim, trivial⟩, fun a ha b hb => hb ▸ hfresh a ha⟩
+  · rw [add_objs]
+    simp only [hnot, if_false]
+    rw [List.nodup_append]
+    exact ⟨ih.objs_nodup, by simp, fun a ha b hb => by
+      simp only [List.mem_cons, List.not_mem_nil, or_false] at hb; subst hb
+      exact fun h => hnot (h ▸ ha)⟩
+  · intro i hi
+    rw [add_objs] at hi
+    rw [add_seq]
+    simp only [hnot, if_false, List.mem_append, List.mem_cons, List.not_mem_nil,
+      or_false] at hi ⊢
+    rcases hi with hi | rfl
+    · obtain ⟨o', ho', hid⟩ := ih.objs_sub i hi
+      exact ⟨o', Or.inl ho', hid⟩
+    · exact ⟨o, Or.inr rfl, rfl⟩
+  · rw [← ih.live]
+    simp only [Plane.iter, add_seq, add_objs, hnot, if_false, List.filter_append, List.mem_append,
+      List.mem_cons, List.not_mem_nil, or_false]
+    congr 1
+    · apply List.filter_congr
+      intro a ha
+      have : a.id ≠ o.id := hfresh a ha
+      simp [this]
+    · simp
+  · intro o' ho'
+    rw [add_seq] at ho'
+    simp only [List.mem_append, List.mem_cons, List.not_mem_nil, or_false] at ho'
+    rcases ho' with h | rfl
+    · exact ih.wf o' h
+    · exact hwf
+  · intro k o'
+    simp only [getrange_add, cells_add, List.mem_append, List.mem_cons, List.not_mem_nil, or_false]
+    cases hc : cells? p (bboxOf o) with
+    | none =>
+      rw [(add_big p o hc).1, ih.grid]
+      by_cases h : o' = o
+      · subst h; simp [hoL, hc]
+      · simp [h]
+    | some ks =>
+      have hks := (cells?_some hc).1
+      rw [(add_small p o ks hc).1, foldl_append_pairs, List.count_append, count_map_pair, ih.grid, hks]
+      by_cases h : o' = o
+      · subst h; simp [hoL, hc]
+      · simp [h]
+  · intro o'
+    simp only [cells_add, List.mem_append, List.mem_cons, List.not_mem_nil, or_false]
+    cases hc : cells? p (bboxOf o) with
+    | none =>
+      rw [(add_big p o hc).2, List.count_append, ih.big]
+      by_cases h : o' = o
+      · subst h; simp [hoL, hc]
+      · have : (o == o') = false := by simp [Ne.symm h]
+        simp [h, List.count_cons, this]
+    | some ks =>
+      rw [(add_small p o ks hc).2, ih.big]
+      by_cases h : o' = o
+      · subst h; simp [hoL, hc]
+      · simp [h]
+
+/-- Forgetting the stale `_seq` entry of an object that is not live keeps the invariant (same live list). -/
+theorem inv_forget {p L} (inv : Inv p L) (o : PObj) (hdead : o.id ∉ p.objs) : Inv (Plane.forget p o) L where
+  gs := inv.gs
+  bx := inv.bx
+  by' := inv.by'
+  ids := inv.ids.sublist List.erase_sublist
+  objs_nodup := inv.objs_nodup
+  objs_sub := by
+    intro i hi
+    obtain ⟨o', ho', hid⟩ := inv.objs_sub i hi
+    refine ⟨o', ?_, hid⟩
+    show o' ∈ p.seq.erase o
+    exact (List.mem_erase_of_ne (by rintro rfl; exact hdead (hid ▸ hi))).mpr ho'
+  live := by
+    show (p.seq.erase o).filter (fun o' => decide (o'.id ∈ p.objs)) = L
+    rw [filter_erase_of_false _ _ (by simpa using hdead)]
+    exact inv.live
+  wf := fun o' ho' => inv.wf o' (List.mem_of_mem_erase ho')
+  grid := by
+    intro k o'
+    rw [cells_forget, getrange_forget]
+    exact inv.grid k o'
+  big := by
+    intro o'
+    rw [cells_forget]
+    exact inv.big o'
+
 theorem inv_of_reach {p L} (h : Reach p L) : Inv p L := by
   induction h with
   | init bbox gs hgs hb =>
@@ -148,80 +254,7 @@ theorem inv_of_reach {p L} (h : Reach p L) : Inv p L := by
             objs_nodup := by simp [Plane.init], objs_sub := by simp [Plane.init],
             live := by simp [Plane.init, Plane.iter], wf := by simp [Plane.init],
             grid := by simp [Plane.init], big := by simp [Plane.init] }
-  | @add p L o _ hfresh hwf ih =>
-    have hnot : o.id ∉ p.objs := fun hmem => by
-      obtain ⟨o', ho', hid⟩ := ih.objs_sub _ hmem
-      exact hfresh o' ho' hid
-    have hoL : o ∉ L := fun hmem => by
-      rw [← ih.live] at hmem
-      simp only [Plane.iter, List.mem_filter] at hmem
-      exact hfresh o hmem.1 rfl
-    have hb := add_bounds p o
-    refine { gs := by rw [hb.1]; exact ih.gs, bx := by rw [hb.2.1, hb.2.2.2.1]; exact ih.bx,
-             by' := by rw [hb.2.2.1, hb.2.2.2.2]; exact ih.by', ids := ?_, objs_nodup := ?_, objs_sub := ?_,
-             live := ?_, wf := ?_, grid := ?_, big := ?_ }
-    · rw [add_seq]
-      simp only [List.pairwise_append, List.pairwise_cons, List.not_mem_nil,
-        List.Pairwise.nil, List.mem_cons, or_false]
-      exact ⟨ih.ids, ⟨fun _ h => h.elim, trivial⟩, fun a ha b hb => hb ▸ hfresh a ha⟩
-    · rw [add_objs]
-      simp only [hnot, if_false]
-      rw [List.nodup_append]
-      exact ⟨ih.objs_nodup, by simp, fun a ha b hb => by
-        simp only [List.mem_cons, List.not_mem_nil, or_false] at hb; subst hb
-        exact fun h => hnot (h ▸ ha)⟩
-    · intro i hi
-      rw [add_objs] at hi
-      rw [add_seq]
-      simp only [hnot, if_false, List.mem_append, List.mem_cons, List.not_mem_nil,
-        or_false] at hi ⊢
-      rcases hi with hi | rfl
-      · obtain ⟨o', ho', hid⟩ := ih.objs_sub i hi
-        exact ⟨o', Or.inl ho', hid⟩
-      · exact ⟨o, Or.inr rfl, rfl⟩
-    · rw [← ih.live]
-      simp only [Plane.iter, add_seq, add_objs, hnot, if_false, List.filter_append, List.mem_append,
-        List.mem_cons, List.not_mem_nil, or_false]
-      congr 1
-      · apply List.filter_congr
-        intro a ha
-        have : a.id ≠ o.id := hfresh a ha
-        simp [this]
-      · simp
-    · intro o' ho'
-      rw [add_seq] at ho'
-      simp only [List.mem_append, List.mem_cons, List.not_mem_nil, or_false] at ho'
-      rcases ho' with h | rfl
-      · exact ih.wf o' h
-      · exact hwf
-    · intro k o'
-      simp only [getrange_add, cells_add, List.mem_append, List.mem_cons, List.not_mem_nil, or_false]
-      cases hc : cells? p (bboxOf o) with
-      | none =>
-        rw [(add_big p o hc).1, ih.grid]
-        by_cases h : o' = o
-        · subst h; simp [hoL, hc]
-        · simp [h]
-      | some ks =>
-        have hks := (cells?_some hc).1
-        rw [(add_small p o ks hc).1, foldl_append_pairs, List.count_append, count_map_pair, ih.grid, hks]
-        by_cases h : o' = o
-        · subst h; simp [hoL, hc]
-        · simp [h]
-    · intro o'
-      simp only [cells_add, List.mem_append, List.mem_cons, List.not_mem_nil, or_false]
-      cases hc : cells? p (bboxOf o) with
-      | none =>
-        rw [(add_big p o hc).2, List.count_append, ih.big]
-        by_cases h : o' = o
-        · subst h; simp [hoL, hc]
-        · have : (o == o') = false := by simp [Ne.symm h]
-          simp [h, List.count_cons, this]
-      | some ks =>
-        rw [(add_small p o ks hc).2, ih.big]
-        by_cases h : o' = o
-        · subst h; simp [hoL, hc]
-        · simp [h]
+  | @add p L o _ hfresh hwf ih => exact inv_add ih o hfresh hwf
   | @remove p L o _ hmem ih =>
     have hlive : o ∈ Plane.iter p := ih.live ▸ hmem
     have hseq : o ∈ p.seq := by
@@ -287,6 +320,14 @@ theorem inv_of_reach {p L} (h : Reach p L) : Inv p L := by
         by_cases h : o' = o
         · subst h; simp [hiff, hc]
         · simp [h, hiff]
+  | @readd p L o _ hseq hdead ih =>
+    rw [addPy_readd p o hdead hseq]
+    have hnd : p.seq.Nodup := ih.ids.imp (fun hne heq => hne (congrArg PObj.id heq))
+    refine inv_add (inv_forget ih o hdead) o ?_ (ih.wf o hseq)
+    intro o' ho' hid
+    have ho'' : o' ∈ p.seq.erase o := ho'
+    rw [hnd.mem_erase_iff] at ho''
+    exact ho''.1 (eq_of_id_eq ih.ids ho''.2 hseq hid)
 
 /-- **find = brute force.**  After any sequence of insertions and removals - objects in the overflow list
 included -, for every well-formed query box - also one that covers more than `MAXCELLS` cells -, `find`
@@ -496,7 +537,11 @@ theorem plane_extend {p L} (h : Reach p L) (os : List PObj)
   induction os generalizing p L with
   | nil => simpa [extend_nil] using h
   | cons o os ih =>
-    rw [extend_cons]
+    have hnotseq : o ∉ p.seq := fun hm => hfresh o (List.mem_cons_self ..) o hm rfl
+    have hnot : o.id ∉ p.objs := fun hm => by
+      obtain ⟨o', ho', hid⟩ := (inv_of_reach h).objs_sub _ hm
+      exact hfresh o (List.mem_cons_self ..) o' ho' hid
+    rw [extend_cons, addPy_fresh p o hnot hnotseq]
     rw [List.pairwise_cons] at hd
     have h1 := Reach.add o h (hfresh o (List.mem_cons_self ..)) (hwf o (List.mem_cons_self ..))
     have := ih h1 (by
@@ -515,20 +560,21 @@ inductive Op
 
 /-- What the index does … -/
 def Op.run (p : Plane.Plane) : Op → Plane.Plane
-  | .add o => Plane.add p o
+  | .add o => Plane.addPy p o
   | .extend os => Plane.extend p os
   | .remove o => (Plane.remove p o).1
 
 /-- … and what the brute-force list does. -/
 def Op.spec (L : List PObj) : Op → List PObj
-  | .add o => L ++ [o]
+  | .add o => if o ∈ L then L else L ++ [o]      -- set-like: an object that is there stays where it is
   | .extend os => L ++ os
   | .remove o => L.erase o
 
-/-- The domain: inserted objects are new and well formed; a removal targets a live object OR an object
-that is not in the index at all (removed before / never added). -/
+/-- The domain: `add` inserts a new well-formed object OR an object that was handed to the index before
+(still live: duplicate `add`, a no-op; removed since: it is added again); a removal targets a live object OR an
+object that is not in the index at all (removed before / never added). -/
 def Op.Ok (p : Plane.Plane) : Op → Prop
-  | .add o => (∀ o' ∈ p.seq, o'.id ≠ o.id) ∧ WfRect (bboxOf o)
+  | .add o => ((∀ o' ∈ p.seq, o'.id ≠ o.id) ∧ WfRect (bboxOf o)) ∨ o ∈ p.seq
   | .extend os => (∀ o ∈ os, ∀ o' ∈ p.seq, o'.id ≠ o.id) ∧ os.Pairwise (fun a b => a.id ≠ b.id) ∧
       ∀ o ∈ os, WfRect (bboxOf o)
   | .remove o => o ∈ Plane.iter p ∨ o.id ∉ p.objs
@@ -549,7 +595,25 @@ theorem plane_history {p L} (h : Reach p L) (ops : List Op) (hok : HistOk p ops)
     simp only [List.foldl_cons]
     refine ih ?_ h2
     cases op with
-    | add o => exact Reach.add o h h1.1 h1.2
+    | add o =>
+      have hLiff : o ∈ L ↔ o ∈ p.seq ∧ o.id ∈ p.objs := by
+        rw [← plane_iter h]
+        simp [Plane.iter]
+      rcases h1 with ⟨hf, hw⟩ | hs
+      · have hnotseq : o ∉ p.seq := fun hm => hf o hm rfl
+        have hnot : o.id ∉ p.objs := fun hm => by
+          obtain ⟨o', ho', hid⟩ := (inv_of_reach h).objs_sub _ hm
+          exact hf o' ho' hid
+        have hL : o ∉ L := fun hm => hnotseq (hLiff.mp hm).1
+        simp only [Op.run, Op.spec, addPy_fresh p o hnot hnotseq, hL, if_false]
+        exact Reach.add o h hf hw
+      · by_cases hlive : o.id ∈ p.objs
+        · have hL : o ∈ L := hLiff.mpr ⟨hs, hlive⟩
+          simp only [Op.run, Op.spec, addPy_live p o hlive, hL, if_true]
+          exact h
+        · have hL : o ∉ L := fun hm => hlive (hLiff.mp hm).2
+          simp only [Op.run, Op.spec, hL, if_false]
+          exact Reach.readd o h hs hlive
     | extend os => exact plane_extend h os h1.1 h1.2.1 h1.2.2
     | remove o =>
       rcases h1 with h1 | h1
@@ -576,11 +640,14 @@ theorem plane_history_bruteforce (bbox : Rect) (gs : Int) (hgs : 0 < gs) (hb : W
 /-! ### Non-vacuity (round 6): a history with an `extend`, a live removal, an absent removal. -/
 
 def exC : PObj := ⟨3, 10, 10, 10, 20⟩        -- zero-width object
-def exOps : List Op := [.extend [exA, exB], .remove exB, .remove exB, .add exC, .remove ⟨9, 0, 0, 1, 1⟩]
+/-- extend; remove (live); remove (absent: KeyError); add; remove (never added); add of a live object (no-op);
+add of the removed object again (it becomes the last one). -/
+def exOps : List Op :=
+  [.extend [exA, exB], .remove exB, .remove exB, .add exC, .remove ⟨9, 0, 0, 1, 1⟩, .add exA, .add exB]
 
 example : HistOk (Plane.init (0, 0, 100, 100) 50) exOps := by
   simp only [exOps, HistOk, Op.Ok, Op.run, and_true]
-  refine ⟨⟨?_, ?_, ?_⟩, ?_, ?_, ⟨?_, ?_⟩, ?_⟩
+  refine ⟨⟨?_, ?_, ?_⟩, ?_, ?_, Or.inl ⟨?_, ?_⟩, ?_, Or.inr ?_, Or.inr ?_⟩
   · simp [Plane.init]
   · simp [exA, exB]
   · intro o ho
@@ -591,9 +658,38 @@ example : HistOk (Plane.init (0, 0, 100, 100) 50) exOps := by
   · decide +kernel
   · unfold WfRect bboxOf; decide +kernel
   · right; decide +kernel
+  · decide +kernel
+  · decide +kernel
 
-example : exOps.foldl Op.spec [] = [exA, exC] := by decide +kernel
+example : exOps.foldl Op.spec [] = [exA, exC, exB] := by decide +kernel
+example : Plane.iter (exOps.foldl Op.run (Plane.init (0, 0, 100, 100) 50)) = [exA, exC, exB] := by decide +kernel
 example : Plane.remove exP exB = (exP, false) := plane_remove_absent exP_reach exB (by decide +kernel)
+
+/-- Adding an object that is live is a no-op (set-like). -/
+theorem plane_add_live {p L} (h : Reach p L) (o : PObj) (ho : o ∈ L) : Plane.addPy p o = p := by
+  rw [← plane_iter h] at ho
+  simp only [Plane.iter, List.mem_filter, decide_eq_true_eq] at ho
+  exact addPy_live p o ho.2
+
+/-- Why `Plane.add` needs its guard (the behaviour before the repair, `Plane.add` = the unguarded insertion):
+filing a live object a second time leaves, after `remove`, a stale grid entry - `find` reports an object that
+is not in the index any more. -/
+theorem plane_unguarded_double_add_cex :
+    let p := (Plane.remove (Plane.add (Plane.add (Plane.init (0, 0, 100, 100) 50) exB) exB) exB).1
+    Plane.find p (55, 55, 75, 75) = [exB] ∧ Plane.iter p = [] ∧ Plane.len p = 0 := by decide +kernel
+
+/-- … and without dropping the stale `_seq` entry a re-added object is iterated twice. -/
+theorem plane_unguarded_readd_cex :
+    let p := Plane.add (Plane.remove (Plane.add (Plane.init (0, 0, 100, 100) 50) exB) exB).1 exB
+    Plane.iter p = [exB, exB] ∧ Plane.len p = 1 := by decide +kernel
+
+/-- The repaired `add` on the same histories. -/
+example :
+    let p := (Plane.remove (Plane.addPy (Plane.addPy (Plane.init (0, 0, 100, 100) 50) exB) exB) exB).1
+    Plane.find p (55, 55, 75, 75) = [] ∧ Plane.iter p = [] := by decide +kernel
+example :
+    let p := Plane.addPy (Plane.remove (Plane.addPy (Plane.init (0, 0, 100, 100) 50) exB) exB).1 exB
+    Plane.iter p = [exB] ∧ Plane.len p = 1 := by decide +kernel
 
 /-! ## Round 6: list helpers of utils.py (`get_bound`, `uniq`, `fsplit`; regenerated definitions) -/
 
